@@ -87,6 +87,7 @@ func shortTypeName(t types.Type) string {
 
 // Sorts registry: per function generator.
 type Sorts struct {
+	goTypeOf map[string]types.Type // struct sort name -> Go type
 	decls    []string
 	declared map[string]bool
 	structs  map[string]*types.Struct
@@ -114,6 +115,7 @@ const prelude = `(set-option :smt.mbqi false)
 (assert (forall ((s Str)) (! (=> (= (strlen s) 0) (= s str.empty)) :pattern ((strlen s)))))
 (assert (forall ((s Str) (i Int)) (! (and (<= 0 (strat s i)) (< (strat s i) 256)) :pattern ((strat s i)))))
 (assert (forall ((a Str) (b Str)) (! (= (strlen (strcat a b)) (+ (strlen a) (strlen b))) :pattern ((strcat a b)))))
+(assert (forall ((a Str) (b Str) (i Int)) (! (=> (and (<= 0 i) (< i (+ (strlen a) (strlen b)))) (= (strat (strcat a b) i) (ite (< i (strlen a)) (strat a i) (strat b (- i (strlen a)))))) :pattern ((strat (strcat a b) i)))))
 (declare-fun implements (Int Int) Bool)
 (declare-sort Bytes 0)
 (declare-fun blen (Bytes) Int)
@@ -261,6 +263,12 @@ func (s *Sorts) sortOf(t types.Type) string {
 
 func (s *Sorts) declStruct(t types.Type, st *types.Struct) string {
 	name := s.structSortName(t)
+	if s.goTypeOf == nil {
+		s.goTypeOf = map[string]types.Type{}
+	}
+	if _, ok := s.goTypeOf[name]; !ok {
+		s.goTypeOf[name] = t
+	}
 	if s.declared["struct:"+name] {
 		return name
 	}
